@@ -221,6 +221,13 @@ func MakePkt(kind string) *astits.Packet {
 	case "stalebig": // reused struct: HasPayload unset but a stale payload that would not fit is still attached
 		return &astits.Packet{Header: astits.PacketHeader{PID: 0x300, HasAdaptationField: true, ContinuityCounter: 2},
 			AdaptationField: &astits.PacketAdaptationField{HasPCR: true, PCR: cr(5, 5)}, Payload: make([]byte, 184)}
+	case "afwrap": // adaptation field whose private data (254 bytes) makes the 8-bit length arithmetic wrap
+		pd := bytes.Repeat([]byte{0x77}, 254)
+		return &astits.Packet{Header: astits.PacketHeader{PID: 0x300, HasAdaptationField: true, HasPayload: true},
+			AdaptationField: &astits.PacketAdaptationField{HasTransportPrivateData: true, TransportPrivateData: pd, TransportPrivateDataLength: len(pd)}, Payload: []byte{1, 2, 3}}
+	case "priv0pkt": // transport_private_data flag set with zero-length data (legal), short payload padded
+		return &astits.Packet{Header: astits.PacketHeader{PID: 0x301, HasAdaptationField: true, HasPayload: true, PayloadUnitStartIndicator: true, ContinuityCounter: 1},
+			AdaptationField: &astits.PacketAdaptationField{HasTransportPrivateData: true}, Payload: append([]byte{0, 0, 1, 0xe0, 0, 0, 0x80, 0, 0}, bytes.Repeat([]byte{0x44}, 170)...)}
 	case "big": // payload one byte too large
 		return &astits.Packet{Header: astits.PacketHeader{PID: 0x300, HasPayload: true}, Payload: make([]byte, 185)}
 	case "af252": // adaptation field that cannot fit
